@@ -377,6 +377,16 @@ func stdPrecompileGas(r *Rng, em *Emitter, seed uint64, i int) {
 		in = append(in, r.Bytes(int(ml))...)
 		if r.Chance(10) && len(in) > 96 {
 			in = in[:96+r.Intn(len(in)-96)] // truncated: the missing part reads as zeros
+		} else if r.Chance(12) && el > 1 {
+			// calldata that ends inside the leading 32 bytes of the exponent (the rest reads as zeros, on the right)
+			head := el
+			if head > 32 {
+				head = 32
+			}
+			cut := 96 + int(bl) + 1 + r.Intn(int(head)-1)
+			if cut < len(in) {
+				in = in[:cut]
+			}
 		}
 	case 9:
 		in = r.Bytes(213)
